@@ -70,21 +70,21 @@ def check(ctx) -> Result:
                     return src(e)
             return ""
         ok = bool(vals) and bool(chs) and all("pdist.values()" in p_src(c) and src(c.args[0]) == "vals" for c in chs)
-        res.add(ok, "I-keys-values-aligned", f.qualname, f.site(), f.qualname, "states and probabilities are taken from the same dictionary in the same order", "states and probabilities handed to the draw may be misaligned", construct=src(chs[0])[:120] if chs else "")
+        res.frozen(ok, "I-keys-values-aligned", f.qualname, f.site(), f.qualname, "states and probabilities are taken from the same dictionary in the same order", "states and probabilities handed to the draw may be misaligned", construct=src(chs[0])[:120] if chs else "")
     # single-shot samplers use the refreshed continuous distribution with `<`
     for ci in (sam, qs):
         f = ci.methods["sample"]
         lp = [l for l in walk_no_nested(f.node) if isinstance(l, ast.For) and src(l.iter) == "self.continuous_distribution.items()"]
         cmpn = [c for c in walk_no_nested(f.node) if isinstance(c, ast.Compare)]
         ok = bool(lp) and len(cmpn) == 1 and isinstance(cmpn[0].ops[0], ast.Lt) and src(cmpn[0].left) == "pval"
-        res.add(ok, "I-inverse-cdf", f.qualname, f.site(), f.qualname, "inverse-CDF sampling: first state whose cumulative probability exceeds the draw", "single-shot sampling is no longer an inverse-CDF lookup over the refreshed cumulative distribution", construct=src(cmpn[0]) if cmpn else "")
+        res.frozen(ok, "I-inverse-cdf", f.qualname, f.site(), f.qualname, "inverse-CDF sampling: first state whose cumulative probability exceeds the draw", "single-shot sampling is no longer an inverse-CDF lookup over the refreshed cumulative distribution", construct=src(cmpn[0]) if cmpn else "")
     # cumulative distribution is a running sum in key order
     for ci in (sam, qs):
         f = ci.methods["_convert_to_continuous"]
         aug = [a for a in walk_no_nested(f.node) if isinstance(a, ast.AugAssign) and isinstance(a.op, ast.Add)]
         st = [a for a in walk_no_nested(f.node) if isinstance(a, ast.Assign) and isinstance(a.targets[0], ast.Subscript)]
         ok = len(aug) == 1 and len(st) == 1 and src(aug[0].target) in src(st[0].value) and aug[0].lineno < st[0].lineno
-        res.add(ok, "I-inverse-cdf", f.qualname, f.site(), f.qualname, "cumulative value stored after adding the state's own probability", "cumulative distribution is not the inclusive running sum", construct=src(f.node)[:100])
+        res.frozen(ok, "I-inverse-cdf", f.qualname, f.site(), f.qualname, "cumulative value stored after adding the state's own probability", "cumulative distribution is not the inclusive running sum", construct=src(f.node)[:100])
     # visible-space results (K1 is a known finding)
     n = rb_states.run(ctx, res, only=["Sampler.", "QuickSampler."], rules={"B4-public-result-visible", "B1-post-selection-visible", "B3-herald-side"})
     res.floor("B4 checks", n, 6)
